@@ -20,13 +20,18 @@ Theorems in `E57/Proofs/Interrupted.lean`, namespace `E57.Interrupt`:
  * `finalize_log`, `finalize_crash`  the log of the top-level finalize: everything before the write
    of the new page 0 is rejected; after it the image equals the final device.
  * torn header write: `tornHeader_early` (cut ≤ 32: rejected), `tornHeader_mid` (33..39: the XML
-   length is truncated), `tornHeader_late` / `tornHeader_late_opens` (cut ≥ 40: all payload bytes
-   are final, only the page-0 checksum may be old; the opened view equals the complete file's),
-   `tornHeader_newLength`.
+   length is truncated), `tornHeader_late` (cut ≥ 40: all payload bytes are final, only the page-0
+   checksum may be old), `tornHeader_newLength`.  `E57Reader::new` validates the header page
+   (`E57.HeaderPage.open_checks_header_page`): `tornHeader_late_valid_iff` (cut ≥ 40: page 0 is valid
+   iff the image is the complete file), `tornHeader_late_rejected` (otherwise rejected),
+   `tornHeader_late_opens` (a torn image with a VALID page 0 is opened like the complete file),
+   `torn_header_rejected` (every torn image that differs from the complete file is rejected, except
+   for a cut in 33..39 whose torn page 0 happens to carry a valid checksum).
  * `torn_header_rejected_statement_false`  "a mid-header-write image that differs from the final
-   file is rejected" is FALSE (cut 40..1023: final header over the old page-0 checksum; the
-   reader reads the header raw).  The property itself only demands that an accepted image shows
-   the completed file's content or errors, which is what `tornHeader_late_opens` gives.
+   file is rejected" is still FALSE without that exception: the witness is a cut at byte 33 (XML length
+   257 truncated to 1) with a CRC collision between the torn page 0 and the placeholder page 0
+   (`w_crc_eq`); the earlier witness (cut 40: final header over the old checksum, read raw) is now
+   rejected.
  * non-vacuity: `ex_session`, `exCheck_true`, `ex_finalize`, `finalize_succeeds`.
 -/
 import E57.Proofs.Interrupted
